@@ -694,7 +694,7 @@ def _fill(rng, n):
 
 def _limit_request(rng, thorough):
     """One valid request with a chosen header-section shape and body; -> bytes"""
-    shape = rng.choice(['normal', 'normal', 'one-long-header', 'many-short-headers', 'long-target'])
+    shape = rng.choice(['normal', 'normal', 'one-long-header', 'many-short-headers', 'long-target', 'folded-header'])
     big = [200, 1000, 3000, 5000, 9000] + ([20000, 40000] if thorough else [])
     method = rng.choice([b"POST", b"PUT", b"PATCH"])
     target = b"/t"
@@ -704,6 +704,11 @@ def _limit_request(rng, thorough):
     elif shape == 'many-short-headers':
         for i in range(rng.choice([10, 50, 200, 400])):
             lines.append(b"X-%d: v%d" % (i, i))
+    elif shape == 'folded-header':
+        # obs-fold: every physical line is short, the continuation lines add up (seeded defect C25-2: they were not counted)
+        lines.append(b"X-Fold: start")
+        for i in range(rng.choice([3, 20, 100, 300])):
+            lines.append(rng.choice([b" ", b"\t"]) + _fill(rng, 30)[:rng.choice([1, 10, 30])])
     elif shape == 'long-target':
         target = b"/" + _fill(rng, rng.choice(big))[:rng.choice(big)]
     else:
@@ -733,7 +738,7 @@ def _limit_request(rng, thorough):
 
 
 def _limit_response(rng, thorough):
-    shape = rng.choice(['normal', 'normal', 'one-long-header', 'many-short-headers', 'long-reason'])
+    shape = rng.choice(['normal', 'normal', 'one-long-header', 'many-short-headers', 'long-reason', 'folded-header'])
     big = [200, 1000, 3000, 5000, 9000] + ([20000, 40000] if thorough else [])
     reason = b"OK"
     lines = [b"Server: s"]
@@ -742,6 +747,10 @@ def _limit_response(rng, thorough):
     elif shape == 'many-short-headers':
         for i in range(rng.choice([10, 50, 200, 400])):
             lines.append(b"X-%d: v%d" % (i, i))
+    elif shape == 'folded-header':
+        lines.append(b"X-Fold: start")
+        for i in range(rng.choice([3, 20, 100, 300])):
+            lines.append(rng.choice([b" ", b"\t"]) + _fill(rng, 30)[:rng.choice([1, 10, 30])])
     elif shape == 'long-reason':
         reason = _fill(rng, rng.choice(big))[:rng.choice(big)]
     bk = rng.choice(['cl', 'cl', 'chunked', 'chunked', 'close'])
